@@ -58,6 +58,26 @@ for k in self._data:
     args.pop(k)
 return cast(dict[str, float], args)"""
 
+# public wrappers (default state = get_initial_conditions() AT THE GIVEN TIME; selections of the one table) and the
+# time-course forms (row by row through _get_args / _get_right_hand_side), as modelled in coq/core/QueryTC.v
+_PUB_SHAPES = {
+    'get_args': 'if (cache := self._cache) is None:\n    cache = self._create_cache()\nraw = self._get_args(variables=self.get_initial_conditions() if variables is None else variables, time=time, cache=cache)\nif include_readouts:\n    for name, ro in self._readouts.items():\n        ro.calculate_inpl(name, raw)\nargs = pd.Series(raw, dtype=float)\nreturn args.loc[self.get_arg_names(include_time=include_time, include_variables=include_variables, include_parameters=include_parameters, include_derived_parameters=include_derived_parameters, include_derived_variables=include_derived_variables, include_reactions=include_reactions, include_surrogate_variables=include_surrogate_variables, include_surrogate_fluxes=include_surrogate_fluxes, include_readouts=include_readouts)]',
+    'get_fluxes': 'return self.get_args(variables=variables, time=time, include_time=False, include_variables=False, include_parameters=False, include_derived_parameters=False, include_derived_variables=False, include_reactions=True, include_surrogate_variables=False, include_surrogate_fluxes=True, include_readouts=False)',
+    'get_right_hand_side': 'if (cache := self._cache) is None:\n    cache = self._create_cache()\nvar_names = self.get_variable_names()\nargs = self._get_args(variables=self.get_initial_conditions() if variables is None else variables, time=time, cache=cache)\nreturn self._get_right_hand_side(args=args, var_names=var_names, cache=cache)',
+    'get_stoichiometries': 'if (cache := self._cache) is None:\n    cache = self._create_cache()\nargs = self.get_args(variables=variables, time=time)\nstoich_by_cpds = copy.deepcopy(cache.stoich_by_cpds)\nfor cpd, stoich in cache.dyn_stoich_by_cpds.items():\n    for rxn, derived in stoich.items():\n        stoich_by_cpds[cpd][rxn] = float(derived.fn(*(args[i] for i in derived.args)))\nreturn pd.DataFrame(stoich_by_cpds).T.fillna(0)',
+}
+_TC_SHAPES = {
+    '_get_args_time_course': 'if (cache := self._cache) is None:\n    cache = self._create_cache()\nargs_by_time = {}\nfor time, values in variables.iterrows():\n    args = self._get_args(variables=values.to_dict(), time=cast(float, time), cache=cache)\n    if include_readouts:\n        for name, ro in self._readouts.items():\n            ro.calculate_inpl(name, args)\n    args_by_time[time] = args\nreturn args_by_time',
+    'get_args_time_course': 'args = pd.DataFrame(self._get_args_time_course(variables=variables, include_readouts=include_readouts), dtype=float).T\nreturn args.loc[:, self.get_arg_names(include_time=False, include_variables=include_variables, include_parameters=include_parameters, include_derived_parameters=include_derived_parameters, include_derived_variables=include_derived_variables, include_reactions=include_reactions, include_surrogate_variables=include_surrogate_variables, include_surrogate_fluxes=include_surrogate_fluxes, include_readouts=include_readouts)]',
+    'get_fluxes_time_course': 'return self.get_args_time_course(variables=variables, include_variables=False, include_parameters=False, include_derived_parameters=False, include_derived_variables=False, include_reactions=True, include_surrogate_variables=False, include_surrogate_fluxes=True, include_readouts=False)',
+    'get_right_hand_side_time_course': "if (cache := self._cache) is None:\n    cache = self._create_cache()\nvar_names = self.get_variable_names()\nrhs_by_time = {}\nfor time, variables in args.iterrows():\n    rhs_by_time[time] = self._get_right_hand_side(args=variables.to_dict() | {'time': time}, var_names=var_names, cache=cache)\nreturn pd.DataFrame(rhs_by_time).T",
+}
+# the default state: the cache's initial conditions themselves or a copy of them (fixes/C13-query-results-are-copies.diff)
+_IC_SHAPES = (
+    'if (cache := self._cache) is None:\n    cache = self._create_cache()\nreturn cache.initial_conditions',
+    'if (cache := self._cache) is None:\n    cache = self._create_cache()\nreturn dict(cache.initial_conditions)',
+)
+
 
 def _method_body(tree: ast.Module, cls: str, meth: str) -> str | None:
     for n in tree.body:
@@ -75,6 +95,9 @@ def extract_facts() -> dict[str, str]:
         "call_shape": "true" if _method_body(tree, "Model", "__call__") == _CALL_SHAPE else "false",
         "rhs_shape": "true" if _method_body(tree, "Model", "_get_right_hand_side") == _RHS_SHAPE else "false",
         "get_args_shape": "true" if _method_body(tree, "Model", "_get_args") == _GETARGS_SHAPE else "false",
+        "public_shape": "true" if all(_method_body(tree, "Model", k) == v for k, v in _PUB_SHAPES.items())
+        and _method_body(tree, "Model", "get_initial_conditions") in _IC_SHAPES else "false",
+        "time_course_shape": "true" if all(_method_body(tree, "Model", k) == v for k, v in _TC_SHAPES.items()) else "false",
     }
 
 
@@ -83,8 +106,10 @@ def gen() -> dict[str, str]:
     text = (
         "(* REGENERATED from src/mxlpy/model.py by harness/c01.py; do not edit.\n"
         "   true = the method body is statement-for-statement the one modelled in Query.v *)\n"
-        "Record query_facts := mkQueryFacts { qf_call : bool; qf_rhs : bool; qf_get_args : bool }.\n"
-        f"Definition gen_query_facts : query_facts := mkQueryFacts {f['call_shape']} {f['rhs_shape']} {f['get_args_shape']}.\n"
+        "Record query_facts := mkQueryFacts { qf_call : bool; qf_rhs : bool; qf_get_args : bool;\n"
+        "  qf_public : bool (* get_args / get_fluxes / get_right_hand_side / get_stoichiometries / get_initial_conditions: QueryTC.v *);\n"
+        "  qf_time_course : bool (* _get_args_time_course / get_args_time_course / get_fluxes_time_course / get_right_hand_side_time_course *) }.\n"
+        f"Definition gen_query_facts : query_facts := mkQueryFacts {f['call_shape']} {f['rhs_shape']} {f['get_args_shape']} {f['public_shape']} {f['time_course_shape']}.\n"
     )
     common.write_if_changed(common.area_dir(AREA) / "GenQueryFacts.v", text)
     return f
@@ -99,31 +124,155 @@ def _series(s: pd.Series) -> list[tuple[int, int]]:
     return [(un(k), common.exact_int(v)) for k, v in s.items()]
 
 
-def observe(m, desc, t: int, state: dict[int, int] | None) -> dict:
-    """Every way of asking, canonicalised to exact integers keyed by int names."""
+KEY_MODES = ("decl", "rev", "sorted", "rot", "interleave")
+FOREIGN = 9001  # a name no generated model declares: an extra key in a supplied state dict is ignored by every entry point
+
+
+def order_keys(keys: list[int], mode: str) -> list[int]:
+    """Deterministic re-orderings of the keys of a supplied state mapping (a mapping has no order the model may use)."""
+    if mode == "rev":
+        return keys[::-1]
+    if mode == "sorted":
+        return sorted(keys, reverse=keys == sorted(keys))
+    if mode == "rot":
+        return keys[1:] + keys[:1]
+    if mode == "interleave":
+        return keys[1::2] + keys[0::2]
+    return list(keys)
+
+
+def state_pairs(var_order: list[int], state: dict[int, int], mode: str, extra: bool) -> list[tuple[int, int]]:
+    ks = order_keys(list(var_order), mode)
+    pairs = [(k, state[k]) for k in ks]
+    if extra:
+        pairs.insert(len(pairs) // 2, (FOREIGN, 7))
+    return pairs
+
+
+def observe(m, desc, t: int, state: dict[int, int] | None, mode: str = "decl", extra: bool = False) -> dict:
+    """Every way of asking, canonicalised to exact integers keyed by int names.  The named entry points get the state
+    as a mapping whose keys are in the order `mode` (and, with `extra`, one key that is not a variable); only the
+    positional call gets the values in declaration order."""
     var_order = [un(k) for k in m.get_variable_names()]
     if state is None:
-        vars_d = None
-        y = [m.get_initial_conditions()[nm(k)] for k in var_order]
+        mk = lambda: None  # noqa: E731
+        y = [dict(m.get_initial_conditions())[nm(k)] for k in var_order]
+        pairs = None
     else:
-        vars_d = {nm(k): float(v) for k, v in state.items()}
+        pairs = state_pairs(var_order, state, mode, extra)
+        mk = lambda: {nm(k): float(v) for k, v in pairs}  # noqa: E731  (a fresh dict per call: no entry point may rely on a previous one)
         y = [float(state[k]) for k in var_order]
-    out: dict = {}
+    out: dict = {"pairs": pairs}
     out["call"] = [common.exact_int(v) for v in m(float(t), y)]
-    out["rhs"] = _series(m.get_right_hand_side(vars_d, time=float(t)))
-    out["args"] = _series(m.get_args(vars_d, time=float(t)))
-    out["fluxes"] = _series(m.get_fluxes(vars_d, time=float(t)))
-    st = m.get_stoichiometries(vars_d, time=float(t)) if (desc["rxn"] or any(s[4] for s in desc["sur"])) else None
+    out["rhs"] = _series(m.get_right_hand_side(mk(), time=float(t)))
+    out["args"] = _series(m.get_args(mk(), time=float(t)))
+    out["fluxes"] = _series(m.get_fluxes(mk(), time=float(t)))
+    st = m.get_stoichiometries(mk(), time=float(t)) if (desc["rxn"] or any(s[4] for s in desc["sur"])) else None
     out["stoich"] = (
         [] if st is None else [(un(c), un(r), common.exact_int(st.loc[c, r])) for c in st.index for r in st.columns]
     )
-    # time-course forms on a one-row frame holding the same state at the same time
-    frame = pd.DataFrame({nm(k): [v] for k, v in zip(var_order, y)}, index=[float(t)])
+    # time-course forms on a one-row frame holding the same state at the same time (columns in the order `mode`)
+    cols = order_keys(list(var_order), mode if state is not None else "decl")
+    yv = dict(zip(var_order, y))
+    frame = pd.DataFrame({nm(k): [yv[k]] for k in cols}, index=[float(t)])
     atc = m.get_args_time_course(frame)
     out["args_tc"] = [(un(k), common.exact_int(v)) for k, v in atc.iloc[0].items()]
     out["fluxes_tc"] = [(un(k), common.exact_int(v)) for k, v in m.get_fluxes_time_course(frame).iloc[0].items()]
     out["rhs_tc"] = [(un(k), common.exact_int(v)) for k, v in m.get_right_hand_side_time_course(atc).iloc[0].items()]
     return out
+
+
+# ---------------------------------------------------------------------------------------
+# time-course forms on frames with SEVERAL rows: every row is the single-state query at its own (state, time)
+# ---------------------------------------------------------------------------------------
+
+
+def gen_rows(rng, desc) -> list[tuple[int, dict[int, int]]]:
+    """3..6 rows (time label, state): plateaus (the same state at consecutive rows with different times), states that
+    come back later, non-monotone times, and sometimes a repeated time label."""
+    n = rng.randint(3, 6)
+    times = rng.sample(range(0, 9), n)
+    if rng.random() < 0.5:
+        times.sort()
+    rows: list[tuple[int, dict[int, int]]] = []
+    pool: list[dict[int, int]] = []
+    for i in range(n):
+        r = rng.random()
+        if rows and r < 0.45:
+            s = dict(rows[-1][1])  # plateau
+        elif pool and r < 0.6:
+            s = dict(rng.choice(pool))  # an earlier state again
+        else:
+            s = modelgen.gen_state(rng, desc)[1]
+            pool.append(s)
+        rows.append((times[i], s))
+    if rng.random() < 0.2:
+        j = rng.randrange(1, n)
+        rows[j] = (rows[rng.randrange(j)][0], rows[j][1])  # a repeated time label
+    return rows
+
+
+def observe_tc(m, desc, rows, mode: str = "decl") -> dict:
+    var_order = [un(k) for k in m.get_variable_names()]
+    cols = order_keys(var_order, mode)
+    frame = pd.DataFrame({nm(k): [float(s[k]) for _, s in rows] for k in cols}, index=[float(t) for t, _ in rows])
+    atc = m.get_args_time_course(frame)
+    ftc = m.get_fluxes_time_course(frame)
+    rtc = m.get_right_hand_side_time_course(atc)
+
+    def tab(df):
+        return [(common.exact_int(lbl), [(un(k), common.exact_int(v)) for k, v in row.items()]) for lbl, row in df.iterrows()]
+
+    return {"args": tab(atc), "fluxes": tab(ftc), "rhs": tab(rtc), "rows": [(t, [(k, s[k]) for k in cols]) for t, s in rows]}
+
+
+def judge_tc(desc, orc: Oracle, rows, obs: dict) -> str | None:
+    """Each returned row equals the single-state answer (from the independent evaluator) at that row's own state and
+    time.  A frame whose time labels repeat comes back with one row per label (pandas/dict semantics of the code as
+    it is, not part of the property): then the row must be the answer for SOME input row carrying that label."""
+    var_order = [n for n, _ in desc["var"]]
+    flux_names = [f for f, _ in orc.flux_entries()]
+    labels = [t for t, _ in rows]
+    distinct = len(set(labels)) == len(labels)
+
+    def expected(t, s):
+        memo: dict[int, int] = {}
+        a = {k: orc.value(k, s, t, memo) for k in orc.all_names()}
+        f = [(k, a[k]) for k in dict.fromkeys(flux_names)]
+        dx = orc.rhs(s, t)
+        return a, f, [(n, dx[n]) for n in var_order]
+
+    exp = [expected(t, s) for t, s in rows]
+    for form, idx in (("get_args_time_course", 0), ("get_fluxes_time_course", 1), ("get_right_hand_side_time_course", 2)):
+        got = obs[("args", "fluxes", "rhs")[idx]]
+        if len(got) == len(rows):
+            cand = [[i] for i in range(len(rows))]
+        elif not distinct and [g[0] for g in got] == list(dict.fromkeys(labels)):
+            cand = [[i for i, lb in enumerate(labels) if lb == g[0]] for g in got]
+        else:
+            return f"{form} returned rows labelled {[g[0] for g in got]} for a frame with time labels {labels}"
+        for (lbl, row), cs in zip(got, cand):
+            if lbl != labels[cs[0]]:
+                return f"{form} row labels {[g[0] for g in got]} do not follow the frame's time labels {labels}"
+            ok = False
+            why = ""
+            for i in cs:
+                e = exp[i][idx]
+                if idx == 0:
+                    d = dict(row)
+                    badk = [k for k in orc.all_names() if d.get(k) != e[k]]
+                    if not badk and 0 not in d:
+                        ok = True
+                        break
+                    why = f"{nm(badk[0])}={d.get(badk[0])}, its function applied to the values at that row's state {rows[i][1]} and time {rows[i][0]} gives {e[badk[0]]}" if badk else "a time column is present"
+                else:
+                    if row == e:
+                        ok = True
+                        break
+                    why = f"{row}, the single-state answer at state {rows[i][1]}, time {rows[i][0]} is {e}"
+            if not ok:
+                return f"{form}, row labelled t={lbl} of a {len(rows)}-row frame (times {labels}): {why}"
+    return None
 
 
 def judge(desc, orc: Oracle, t: int, state: dict[int, int] | None, obs: dict) -> str | None:
@@ -182,7 +331,8 @@ def coq_pairs(p) -> str:
 
 
 def coq_case(desc, t, state, obs) -> str:
-    st = "None" if state is None else f"(Some {coq_pairs(state.items())})"
+    # the state as the mapping the named entry points were given (key order and foreign key included)
+    st = "None" if state is None else f"(Some {coq_pairs(obs.get('pairs') or state.items())})"
     sto = clist(f"({cn(c)}, {cn(r)}, {cz(v)})" for c, r, v in obs["stoich"])
     return (
         f"({modelgen.coq_model(desc)}, {cz(t)}, {st}, {clist(map(cz, obs['call']))}, {coq_pairs(obs['rhs'])}, "
@@ -197,6 +347,29 @@ Import ListNotations.
 """
 
 
+def coq_table(tab) -> str:
+    return clist(f"({cz(lbl)}, {coq_pairs(row)})" for lbl, row in tab)
+
+
+def coq_case_tc(desc, obs) -> str:
+    """frame rows as the mappings the implementation iterated over + the three tables it returned"""
+    return f"({modelgen.coq_model(desc)}, {coq_table(obs['rows'])}, {coq_table(obs['args'])}, {coq_table(obs['fluxes'])}, {coq_table(obs['rhs'])})"
+
+
+def coq_case_pub(desc, t, obs) -> str:
+    """variables=None at time t: get_args / get_fluxes / get_right_hand_side"""
+    return f"({modelgen.coq_model(desc)}, {cz(t)}, {coq_pairs(obs['args'])}, {coq_pairs(obs['fluxes'])}, {coq_pairs(obs['rhs'])})"
+
+
+def corr_file_of(kind: str, cases: list[str]) -> str:
+    return (
+        CORR_HEADER.replace("CorrC01.", "CorrC01 QueryTC CorrC01tc.")
+        + f"Definition cases : list {kind}_case := [\n  "
+        + ";\n  ".join(cases)
+        + f"\n].\nEval vm_compute in (filter_idx (fun c => negb ({kind}_case_ok c)) cases).\n"
+    )
+
+
 def corr_file(cases: list[str]) -> str:
     return (
         CORR_HEADER
@@ -209,25 +382,51 @@ def corr_file(cases: list[str]) -> str:
 # ---------------------------------------------------------------------------------------
 
 
+def bounded(orc: Oracle, points) -> bool:
+    """every value the property speaks about stays exactly representable at all the (time, state) points"""
+    try:
+        orc.initial_env()
+        for t, s in points:
+            st = orc.initial_conditions() if s is None else s
+            orc.rhs(st, t)
+            for k in orc.all_names():
+                orc.value(k, st, t)
+    except Unbounded:
+        return False
+    return True
+
+
+# correspondence cases of the other two case types (public wrappers at the default state; whole frames), filled by
+# run_models and evaluated by check()
+EXTRA: dict[str, list] = {"c01pub": [], "c01tc": []}
+
+
 def run_models(run: Run, rng, n_models: int, *, ia_bias: float, tag: str):
     cases, keys = [], []
     dist = {"models": 0, "discarded_unbounded": 0, "with_surrogate": 0, "with_ia": 0, "with_dyn_coef": 0, "with_data": 0,
-            "derived_on_reaction": 0, "components": {}}
+            "derived_on_reaction": 0, "components": {}, "time_read_only_by": {}, "state_key_order": {}, "extra_key_states": 0,
+            "default_state_at_t_nonzero": 0, "tc_frames": 0, "tc_rows": 0, "tc_plateau_rows": 0, "tc_repeated_labels": 0,
+            "tc_nonmonotone": 0}
     n_viol = 0
     for i in range(n_models):
         desc = modelgen.gen_model(rng, ia_bias=ia_bias)
+        # a third of the models: `time` is read by exactly one kind of component (only a surrogate / only a computed
+        # coefficient / only a derived quantity that also reads a data set) or by nothing at all
+        where = rng.choice(["sur", "sur", "coef", "data_der", "none"]) if rng.random() < 0.34 else None
+        if where is not None:
+            desc = modelgen.retime(rng, desc, where)
         orc = Oracle(desc)
-        states = [(0, None)] + [modelgen.gen_state(rng, desc) for _ in range(2)]
-        try:
-            orc.initial_env()
-            for t, s in states:
-                orc.rhs(orc.initial_conditions() if s is None else s, t)
-                for k in orc.all_names():
-                    orc.value(k, orc.initial_conditions() if s is None else s, t)
-        except Unbounded:
+        # the declared initial state at t = 0 AND at a later time (variables=None), two supplied states
+        states = [(0, None), (rng.randint(1, 4), None)] + [modelgen.gen_state(rng, desc) for _ in range(2)]
+        modes = [(rng.choice(KEY_MODES), rng.random() < 0.15) for _ in states]
+        rows = gen_rows(rng, desc)
+        tc_mode = rng.choice(KEY_MODES)
+        if not bounded(orc, states + rows):
             dist["discarded_unbounded"] += 1
             continue
         dist["models"] += 1
+        if where is not None:
+            dist["time_read_only_by"][where] = dist["time_read_only_by"].get(where, 0) + 1
         ncomp = sum(len(desc[k]) for k in ("par", "var", "der", "rxn", "sur"))
         dist["components"][ncomp] = dist["components"].get(ncomp, 0) + 1
         dist["with_surrogate"] += bool(desc["sur"])
@@ -241,11 +440,16 @@ def run_models(run: Run, rng, n_models: int, *, ia_bias: float, tag: str):
         except Exception as e:  # noqa: BLE001
             run.broken_correspondence.append(f"could not build generated model #{i} ({tag}): {type(e).__name__}: {e}")
             continue
-        for t, s in states:
-            key = (tag, repr(desc), t, repr(s))
+        for (t, s), (mode, extra) in zip(states, modes):
+            key = (tag, repr(desc), t, repr(s), mode, extra)
             run.count_case(key, nontrivial=ncomp >= 3)
+            if s is None:
+                dist["default_state_at_t_nonzero"] += t != 0
+            else:
+                dist["state_key_order"][mode] = dist["state_key_order"].get(mode, 0) + 1
+                dist["extra_key_states"] += extra
             try:
-                obs = observe(m, desc, t, s)
+                obs = observe(m, desc, t, s, mode, extra)
                 bad = judge(desc, orc, t, s, obs)
             except Exception as e:  # noqa: BLE001
                 obs = None
@@ -253,10 +457,31 @@ def run_models(run: Run, rng, n_models: int, *, ia_bias: float, tag: str):
             if bad:
                 if n_viol < 4:
                     n_viol += 1
-                    run.violation(f"C01 {bad}", {"kind": "c01", "desc": desc, "time": t, "state": s})
+                    how = "declared initial state (variables=None)" if s is None else f"state mapping with keys in order '{mode}'{' + one foreign key' if extra else ''}"
+                    run.violation(f"C01 [{how}, t={t}] {bad}", {"kind": "c01", "desc": desc, "time": t, "state": s, "key_mode": mode, "extra_key": extra})
                 continue
             cases.append(coq_case(desc, t, s, obs))
             keys.append((desc, t, s))
+            if s is None:
+                EXTRA["c01pub"].append((coq_case_pub(desc, t, obs), (desc, t, "variables=None")))
+        # time-course forms on a frame with several rows (plateaus, non-monotone and repeated time labels)
+        labels = [t for t, _ in rows]
+        dist["tc_frames"] += 1
+        dist["tc_rows"] += len(rows)
+        dist["tc_plateau_rows"] += sum(1 for a, b in zip(rows, rows[1:]) if a[1] == b[1] and a[0] != b[0])
+        dist["tc_repeated_labels"] += len(set(labels)) != len(labels)
+        dist["tc_nonmonotone"] += labels != sorted(labels)
+        run.count_case((tag, "tc", repr(desc), repr(rows), tc_mode), nontrivial=True)
+        try:
+            obs_tc = observe_tc(m, desc, rows, tc_mode)
+            bad = judge_tc(desc, orc, rows, obs_tc)
+            if not bad:
+                EXTRA["c01tc"].append((coq_case_tc(desc, obs_tc), (desc, "frame", rows)))
+        except Exception as e:  # noqa: BLE001
+            bad = f"time-course form of a well-formed model raised {type(e).__name__}: {e}"
+        if bad and n_viol < 4:
+            n_viol += 1
+            run.violation(f"C01 {bad}", {"kind": "c01tc", "desc": desc, "rows": [[t, s] for t, s in rows], "key_mode": tc_mode})
         # the same model after its plain parameters were updated through the public API (the cache was filled
         # by the queries above): it is again "a well-formed model", judged against the updated description
         plain = [n for n, v in desc["par"] if v[0] == "plain"]
@@ -264,14 +489,9 @@ def run_models(run: Run, rng, n_models: int, *, ia_bias: float, tag: str):
             ups = [(n, rng.randint(-3, 3)) for n in rng.sample(plain, min(len(plain), rng.choice([1, 1, 2])))]
             desc2 = apply_updates(desc, ups)
             orc2 = Oracle(desc2)
-            t2, s2 = rng.choice(states)
-            try:
-                orc2.initial_env()
-                st2 = orc2.initial_conditions() if s2 is None else s2
-                orc2.rhs(st2, t2)
-                for k in orc2.all_names():
-                    orc2.value(k, st2, t2)
-            except Unbounded:
+            j2 = rng.randrange(len(states))
+            (t2, s2), (mode2, extra2) = states[j2], modes[j2]
+            if not bounded(orc2, [(t2, s2)]):
                 dist["discarded_unbounded"] += 1
             else:
                 dist["after_update"] = dist.get("after_update", 0) + 1
@@ -282,7 +502,7 @@ def run_models(run: Run, rng, n_models: int, *, ia_bias: float, tag: str):
                             m.update_parameter(nm(n), float(v))
                         else:
                             m.update_parameters({nm(n): float(v)})
-                    obs = observe(m, desc2, t2, s2)
+                    obs = observe(m, desc2, t2, s2, mode2, extra2)
                     bad = judge(desc2, orc2, t2, s2, obs)
                 except Exception as e:  # noqa: BLE001
                     obs = None
@@ -291,12 +511,12 @@ def run_models(run: Run, rng, n_models: int, *, ia_bias: float, tag: str):
                     if n_viol < 4:
                         n_viol += 1
                         run.violation(f"C01 after update_parameter {[(nm(n), v) for n, v in ups]} (queried before): {bad}",
-                                      {"kind": "c01", "desc": desc, "time": t2, "state": s2, "updates": ups})
+                                      {"kind": "c01", "desc": desc, "time": t2, "state": s2, "updates": ups, "key_mode": mode2, "extra_key": extra2})
                 else:
                     cases.append(coq_case(desc2, t2, s2, obs))
                     keys.append((desc2, t2, s2))
         if i == 0:
-            run.sample({"model": desc, "states": states})
+            run.sample({"model": desc, "states": states, "tc_rows": rows})
     return cases, keys, dist
 
 
@@ -313,8 +533,12 @@ def check(run: Run) -> None:
     run.rule = (
         "random well-formed models (parameters, initial-assignment parameters/variables, derived chains, derived on reactions, "
         "reactions with numeric/named/computed coefficients, multi-output MockSurrogates with stoichiometries, scalar data, time) "
-        "x 3 states (declared initial state + 2 random) x 8 entry points; integer-valued polynomial functions so all numbers are "
-        "exact; non-trivial = model has >= 3 components; distinct by (model, state)"
+        "x 4 states (declared initial state at t=0 and at a later time through variables=None, 2 random states handed to the named "
+        "entry points as mappings in permuted key order, sometimes with a foreign key) x 8 entry points; a third of the models has "
+        "`time` read by exactly one kind of component (only a surrogate / only a computed coefficient / only a data-dependent derived "
+        "quantity) or by none; per model one multi-row frame for the time-course forms (plateaus = same state at different times, "
+        "non-monotone and repeated time labels), every row judged at its own (state, time); integer-valued polynomial functions so "
+        "all numbers are exact; non-trivial = model has >= 3 components; distinct by (model, state, key order)"
     )
     run.check_proofs(PROOF_AREA, PROPS)
     run.assumptions += [
@@ -325,12 +549,19 @@ def check(run: Run) -> None:
         "fact extractor (method bodies compared statement-for-statement) and correspondence harness are trusted glue",
     ]
     rng = common.rng_for(run.seed, "c01")
+    EXTRA["c01pub"].clear()
+    EXTRA["c01tc"].clear()
     cases, keys, dist = run_models(run, rng, 1500 if thorough else 250, ia_bias=0.25, tag="c01")
     run.coverage["input_distribution"] = dist
     files = {f"c01_{k:04d}": corr_file(chunk) for k, chunk in enumerate(common.chunks(cases, 150))}
+    keymap = {f"c01_{k:04d}": keys[k * 150:(k + 1) * 150] for k in range(len(files))}
+    for kind in ("c01pub", "c01tc"):
+        for k, chunk in enumerate(common.chunks(EXTRA[kind], 150)):
+            files[f"{kind}_{k:04d}"] = corr_file_of(kind, [c for c, _ in chunk])
+            keymap[f"{kind}_{k:04d}"] = [key for _, key in chunk]
     res = common.coq_eval_many(AREA, files, timeout_s=900)
     mism = 0
-    for k, name in enumerate(sorted(files)):
+    for name in sorted(files):
         ok, out = res[name]
         lists = common.parse_eval_list(out) if ok else None
         if not ok or not lists:
@@ -339,15 +570,29 @@ def check(run: Run) -> None:
         for j in lists[-1]:
             mism += 1
             if len(run.broken_correspondence) < 4:
-                d, t, s = keys[k * 150 + j]
-                run.broken_correspondence.append(f"model/implementation disagree: desc={d} time={t} state={s}")
+                d, t, s = keymap[name][j]
+                run.broken_correspondence.append(f"model/implementation disagree ({name.split('_')[0]}): desc={d} time={t} state={s}")
+    cases = cases + EXTRA["c01pub"] + EXTRA["c01tc"]
+    run.coverage["correspondence_cases"] = {"point_queries": len(keys), "default_state_public_wrappers": len(EXTRA["c01pub"]), "time_course_frames": len(EXTRA["c01tc"])}
     run.coverage["traces_validated_against_impl"] = len(cases) - mism
     run.coverage["correspondence_mismatches"] = mism
 
 
 def replay(rep: dict) -> int:
     r = rep["replay"]
+    if "desc" not in r:
+        print("nothing to replay: ", rep.get("what"))
+        return 1
     desc = {k: [_tup(x) for x in v] for k, v in r["desc"].items()}
+    if r.get("kind") == "c01tc":
+        rows = [(t, {int(k): v for k, v in s.items()}) for t, s in r["rows"]]
+        try:
+            m = modelgen.build(desc)
+            bad = judge_tc(desc, Oracle(desc), rows, observe_tc(m, desc, rows, r.get("key_mode", "decl")))
+        except Exception as e:  # noqa: BLE001
+            bad = f"raised {type(e).__name__}: {e}"
+        print(bad or "property holds on this input")
+        return 1 if bad else 0
     state = None if r["state"] is None else {int(k): v for k, v in r["state"].items()}
     ups = [tuple(u) for u in r.get("updates", [])]
     try:
@@ -358,7 +603,7 @@ def replay(rep: dict) -> int:
                 m.update_parameter(nm(n), float(v))
             desc = apply_updates(desc, ups)
         orc = Oracle(desc)
-        bad = judge(desc, orc, r["time"], state, observe(m, desc, r["time"], state))
+        bad = judge(desc, orc, r["time"], state, observe(m, desc, r["time"], state, r.get("key_mode", "decl"), bool(r.get("extra_key", False))))
     except Exception as e:  # noqa: BLE001
         bad = f"raised {type(e).__name__}: {e}"
     print(bad or "property holds on this input")
